@@ -576,7 +576,7 @@ def check_arvo(rep, JS, t):
     rep.ob('affineTransform<%s>#arvo' % E, 'R13.arvo', VIOLATED if bad else HOLDS, bad or '%d sign cases x 6 bounds' % ncase, where)
 
 def main(rep, ws, tier):
-    kinds = {'quick': [('B2', 'f'), ('B3', 'f'), ('G2', 'f'), ('G3', 'f'), ('G4', 'f'), ('I', 'f'), ('B3', 'i'), ('B2', 's'), ('I', 'i')],
+    kinds = {'quick': [('B2', 'f'), ('B3', 'f'), ('G2', 'f'), ('G3', 'f'), ('G4', 'f'), ('I', 'f'), ('B3', 'i'), ('B2', 's'), ('I', 'i'), ('G4', 'i'), ('G4', 's')],
              'thorough': [(k, t) for k in ('B2', 'B3', 'G2', 'G3', 'G4', 'I') for t in 'fdsil']}[tier]
     tus = [gen(k, t) for k, t in kinds]
     txs = [gen_tx(t) for t in ('f' if tier == 'quick' else 'fd')]
